@@ -220,11 +220,21 @@ impl Check for C05Check {
             return CaseResult { verdict: Verdict::Inconclusive("reference out of fuel".into()), facts };
         }
         let expect: Vec<T> = r1.answers.iter().map(|a| a.term.clone()).collect();
-        let run = run_program(p, &case.cfg, usize::MAX, false);
+        // the engine gets a step budget proportional to the size of the tree (reference steps and
+        // answers); the largest ratio actually needed is reported as a metric in the evidence
+        let mut cfg = case.cfg.clone();
+        cfg.quanta_budget = crate::framework::finite_budget(r1.steps, r1.answers.len());
+        cfg.work_cap = cfg.quanta_budget.saturating_mul(64);
+        let run = run_program(p, &cfg, usize::MAX, false);
         facts.trace_hash = run.stats.trace_hash;
         facts.stats.push(run.stats.clone());
         match &run.end {
-            End::Exhausted => {}
+            End::Exhausted => {
+                facts.metrics.insert(
+                    "quanta_needed_over_budget",
+                    run.stats.quanta as f64 / cfg.quanta_budget as f64,
+                );
+            }
             End::WorkCap => return CaseResult { verdict: Verdict::Inconclusive("work cap".into()), facts },
             End::Panic(pi) => {
                 return CaseResult {
